@@ -6,6 +6,7 @@ mod service;
 mod error;
 mod path;
 mod sigv4;
+mod secret;
 
 fn main() {
     let args: Vec<String> = std::env::args().skip(1).collect();
@@ -17,6 +18,7 @@ fn main() {
         Some("route") => service::route(&args[1..]),
         Some("meta") => service::meta(&args[1..]),
         Some("amz-date") => service::amz_date(&args[1..]),
+        Some("secret") => secret::run(),
         Some("sigv4") => sigv4::one(&args[1..]),
         Some("sigv4-search") => sigv4::search(),
         Some("window") => sigv4::window(&args[1..]),
